@@ -226,6 +226,33 @@ def _mut_borrowed(fn, l):
     return cache[l]
 
 
+def _loop_carried(fn, l, ds):
+    """Some definition of local l reaches a read of l by way of a loop back edge (so the conditions that held at the
+    definition may be stale at the read).  A variable declared inside a loop body is not loop carried."""
+    cache = fn.__dict__.setdefault('_loopc', {})
+    if l in cache:
+        return cache[l]
+    dblocks = {d[0] for d in ds}
+    from .facts import block_reads
+    uses = {b for b in range(len(fn.blocks)) if not fn.blocks[b]['cleanup'] and any(pl['l'] == l for pl in block_reads(fn, b))}
+    back = [(x, h) for x in range(len(fn.blocks)) if x in fn.idom() for h in fn.succs()[x] if fn.dominates(h, x)]
+    res = False
+    for d in dblocks:
+        fwd = fn.reachable(fn.succs()[d], avoid=dblocks - {d}) | {d} if fn.succs()[d] else {d}
+        for (x, h) in back:
+            if x in fwd and x not in (dblocks - {d}):
+                if h in dblocks:
+                    continue
+                after = fn.reachable([h], avoid=dblocks)
+                if uses & after:
+                    res = True
+                    break
+        if res:
+            break
+    cache[l] = res
+    return res
+
+
 def show_place(fn, pl, depth=0):
     c = fn.canon(pl)
     base = c['l']
@@ -255,13 +282,28 @@ def show_place(fn, pl, depth=0):
     if not sd:
         ds = fn.defs().get(base, [])
         # matches!()/&&/|| temporaries: several constant bool assignments, one per arm
-        if ds and (not fn.locals[base]['name'] or (not _mut_borrowed(fn, base) and not any(d[0] in fn.reachable(fn.succs()[d[0]]) for d in ds))) and fn.locals[base]['ty'] == 'bool' and not proj and all(
-                d[2] == 'assign' and d[3]['rv']['k'] == 'use' and d[3]['rv']['op']['k'] == 'const' for d in ds):
+        if ds and fn.locals[base]['ty'] == 'bool' and not proj and not _mut_borrowed(fn, base) and (not fn.locals[base]['name'] or not _loop_carried(fn, base, ds)):
             arms = []
             for d in ds:
-                if const_name(d[3]['rv']['op']) == 'true':
-                    arms.append(' & '.join(direct_guards(fn, d[0], depth + 3, variants=False)) if depth < 6 else '_')
-            return 'true-when{%s}' % ' | '.join(sorted(arms))
+                if fn.blocks[d[0]]['cleanup']:
+                    continue
+                if depth >= 6:
+                    arms.append('_')
+                    continue
+                g = direct_guards(fn, d[0], depth + 3, variants=False)
+                if d[2] == 'assign' and d[3]['rv']['k'] == 'use' and d[3]['rv']['op']['k'] == 'const':
+                    if const_name(d[3]['rv']['op']) == 'true':
+                        arms.append(' & '.join(g))
+                elif d[2] == 'assign' and d[3]['rv']['k'] == 'use':
+                    arms.append(' & '.join(g + [show_operand(fn, d[3]['rv']['op'], depth + 3) + ' not in [0]']))
+                elif d[2] == 'call':
+                    t = d[3]
+                    arms.append(' & '.join(g + ['%s(%s) not in [0]' % (short(callee_name(t)) or 'indirect', ','.join(show_operand(fn, a, depth + 3) for a in t['args']))]))
+                else:
+                    arms = None
+                    break
+            if arms is not None:
+                return 'true-when{%s}' % ' | '.join(sorted(arms))
         if ds and fn.locals[base]['name']:
             return 'var:%s%s' % (fn.locals[base]['ty'], proj)
         return '_%d%s' % (base, proj)
